@@ -23,7 +23,7 @@ import numpy as _np
 import sympy as sp
 
 from . import sym
-from .sym import A, S, T, Shape, Dep, DepMethod, SeqA, StarSeq, SymBranch, Unsupported, ShapeError, has_sym, has_dep, deps_of
+from .sym import A, S, T, Shape, Dep, DepMethod, SeqA, StarSeq, EA, SymBranch, Unsupported, ShapeError, has_sym, has_dep, deps_of
 
 # --------------------------------------------------------------------------------------
 
@@ -398,6 +398,10 @@ class Interp:
             return bool(v)
         except SymBranch as sb:
             c = sb.cond
+        if c in self.pc:
+            return True
+        if sp.Not(c) in self.pc:
+            return False
         if self.pos < len(self.prefix):
             d = self.prefix[self.pos]
         else:
@@ -416,6 +420,14 @@ class Interp:
         self.pos += 1
         self.pc.append(c if d else sp.Not(c))
         return d
+
+    def concrete_mask(self, m: EA):
+        """decide the truth value of every element of a symbolic boolean array (forking)"""
+        out = _np.zeros(m.shape, dtype=bool)
+        for idx in _np.ndindex(*m.shape):
+            e = m.a[idx]
+            out[idx] = self.truth(e)
+        return out
 
     # -- exploring all paths of a call
     def explore(self, make_call):
@@ -791,6 +803,8 @@ class Interp:
             raise Unsupported("assignment target %s" % type(t).__name__)
 
     def setitem(self, obj, idx, v):
+        if isinstance(idx, EA):
+            idx = self.concrete_mask(idx)
         if isinstance(obj, Dep):
             obj[idx] = v
             return
@@ -1111,6 +1125,15 @@ class Interp:
 
         if not isinstance(obj, (A, S, T, Shape)):
             idx = concretize(idx)
+        if isinstance(idx, EA) or (isinstance(idx, tuple) and any(isinstance(q, EA) for q in idx)):
+            # boolean / integer index arrays with symbolic elements: decide them on this path
+            def conc(q):
+                if isinstance(q, EA):
+                    if q.size and all(isinstance(v, S) and sym.isbool(v.e) for v in q.a.flat):
+                        return self.concrete_mask(q)
+                    return _np.array([int(v) for v in q.a.flat]).reshape(q.shape)
+                return q
+            idx = tuple(conc(q) for q in idx) if isinstance(idx, tuple) else conc(idx)
         if has_dep(idx) and not isinstance(obj, Dep):
             d, t = deps_of(idx), any(isinstance(a, Dep) and a.tainted for a in (idx if isinstance(idx, tuple) else (idx,)))
             return Dep(d | deps_of(obj), sp.Integer(1), not t)
